@@ -323,7 +323,7 @@ def run(ctx):
     ntok = 14 if quick else 34
     # ---- 1. exhaustive Design |= Reference over editor sessions
     runs = [('token soups', write_cfg(ctx, 'soup.cfg', ntok if quick else 26, 3, 3, 0, 1, 0, False)),
-            ('program prefixes + edits', write_cfg(ctx, 'prog.cfg', ntok, 18, 1, 17, 1, 0, False))]
+            ('program prefixes + edits', write_cfg(ctx, 'prog.cfg', ntok, 22, 1, 21, 1, 0, False))]
     toks = None
     for label, cfg in runs:
         res = run_tlc('Text', cfg, workers=16, timeout=3000)
@@ -339,7 +339,7 @@ def run(ctx):
     emitted = []
     mod1, mod2 = (29, 23) if quick else (13, 11)
     for label, cfg in [('emit soups', write_cfg(ctx, 'esoup.cfg', ntok if quick else 26, 3, 3, 0, mod1, ctx.seed % mod1, True)),
-                       ('emit programs', write_cfg(ctx, 'eprog.cfg', ntok, 18, 1, 17, mod2, ctx.seed % mod2, True))]:
+                       ('emit programs', write_cfg(ctx, 'eprog.cfg', ntok, 22, 1, 21, mod2, ctx.seed % mod2, True))]:
         res = run_tlc('Text', cfg, workers=1, timeout=3000)
         ctx.add_tlc(res, label)
         emitted += cases(res)
